@@ -277,6 +277,12 @@ def run(ctx):
                 ["-point", p, "-keepbackup", "1"] + (["-delay", "300"] if p == "persist.snap" else []), iso=False)
         if eng == "mem":
             add("isolate-torn-restore", 3, "mem", "install", ["-point", "snap.install.released"], iso=True)
+            # slow checkpoints: 24 MB of unmodelled bulk written after the hook is armed, so that the engine checkpoint of
+            # the snapshot that hits the hook takes far longer (copy + fsync) than writing the snapshot file and the WAL
+            # marker; the node dies at a gate behind the marker (ZNode: CkptDone comes before SaveSnapFile / WalSnapMarker -
+            # a snapshot is only recorded once its checkpoint is complete).  1 replica: nobody to fetch a checkpoint from
+            for p in (["snap.saved"] if ctx.quick() else ["snap.saved", "snap.walsynced", "snap.walreleased", "snap.state", "snap.compacted"]):
+                add("b1-mem-%s-ballast" % p, 1, "mem", "point", ["-point", p, "-k", "1", "-ballast", "24"], iso=False)
     if ctx.quick():
         pick = rnd.sample(RAFT + APPLY + SNAP, 4)
         add("p3l-mem-" + pick[0], 3, "mem", "point", ["-point", pick[0], "-victim", "leader"])
